@@ -11,7 +11,7 @@
  *   O <fn> <k>                        ownership trace of one library function with the k-th allocation failing (k=0: none)
  *       -> "rc=<..> trace=A0 A1 F1 ..."  (ids number the allocations of this call in order; R<old>><new> = realloc moved)
  * Before each single run the line "RUN <scenario#> <k>" is written to stderr and flushed, so that a sanitizer abort can be
- * attributed. After each run the leak checker is invoked; a leak is reported in bad=[...] as "k:leak". */
+ * attributed. After each scenario's sweep the leak checker is invoked once; a leak is reported in bad=[...] as "any:leak". */
 #include <stdio.h>
 #include <stdlib.h>
 #include <string.h>
@@ -20,6 +20,7 @@
 #include "htp_private.h"
 
 htp_cfg_t *cfg_from_spec(const char *spec);
+int main(void);
 
 /* ---------------------------------------------------------------- allocator shims (library side only) */
 static long g_countdown;          /* > 0: the allocation that brings it to 0 fails */
@@ -31,6 +32,20 @@ static char tr_buf[1 << 16]; static size_t tr_len;
 
 static void tr_put(const char *s) { size_t n = strlen(s); if (tr_len + n + 1 < sizeof tr_buf) { memcpy(tr_buf + tr_len, s, n); tr_len += n; tr_buf[tr_len] = 0; } }
 static int tr_find(void *p) { for (int i = tr_n - 1; i >= 0; i--) if (tr_ptr[i] == p) return i; return -1; }
+/* allocation call sites (return addresses into the library) of the current run, for the scenario selection tool (T lines) */
+static int g_sitemode; static void *g_sites[8192]; static int g_nsites;
+#include <execinfo.h>
+static void site_note(void *ra_unused) {
+    if (!g_sitemode) return;
+    /* a site = the chain of the four callers above the allocator shim (bstr_alloc, htp_list_create ... would otherwise hide who asked) */
+    void *bt[6]; int nb = backtrace(bt, 6);
+    uintptr_t h = 1469598103934665603ULL;
+    for (int i = 2; i < nb; i++) h = (h ^ (uintptr_t) ((char *) bt[i] - (char *) &main)) * 1099511628211ULL;
+    void *ra = (void *) (h | 1);
+    (void) ra_unused;
+    for (int i = 0; i < g_nsites; i++) if (g_sites[i] == ra) return;
+    if (g_nsites < 8192) g_sites[g_nsites++] = ra;
+}
 static int fail_now(void) { g_count++; if (g_countdown > 0 && --g_countdown == 0) { g_failed++; return 1; } return 0; }
 static void tr_alloc(void *p) {
     if (!g_trace) return;
@@ -38,10 +53,11 @@ static void tr_alloc(void *p) {
     if (!p) { tr_put(tr_len ? " X" : "X"); return; }
     if (tr_n < MAXTR) { tr_ptr[tr_n] = p; snprintf(b, sizeof b, "%sA%d", tr_len ? " " : "", tr_n); tr_n++; tr_put(b); }
 }
-void *verif_malloc(size_t n) { if (fail_now()) { tr_alloc(NULL); return NULL; } void *p = malloc(n); tr_alloc(p); return p; }
-void *verif_calloc(size_t a, size_t b) { if (fail_now()) { tr_alloc(NULL); return NULL; } void *p = calloc(a, b); tr_alloc(p); return p; }
-char *verif_strdup(const char *s) { if (fail_now()) { tr_alloc(NULL); return NULL; } char *p = strdup(s); tr_alloc(p); return p; }
+void *verif_malloc(size_t n) { site_note(__builtin_return_address(0)); if (fail_now()) { tr_alloc(NULL); return NULL; } void *p = malloc(n); tr_alloc(p); return p; }
+void *verif_calloc(size_t a, size_t b) { site_note(__builtin_return_address(0)); if (fail_now()) { tr_alloc(NULL); return NULL; } void *p = calloc(a, b); tr_alloc(p); return p; }
+char *verif_strdup(const char *s) { site_note(__builtin_return_address(0)); if (fail_now()) { tr_alloc(NULL); return NULL; } char *p = strdup(s); tr_alloc(p); return p; }
 void *verif_realloc(void *o, size_t n) {
+    site_note(__builtin_return_address(0));
     if (fail_now()) { if (g_trace) tr_put(tr_len ? " X" : "X"); return NULL; }
     int oi = g_trace ? tr_find(o) : -1;
     void *p = realloc(o, n);
@@ -180,6 +196,7 @@ static void own(const char *fn, long k) {
     printf("rc=%d live=%d trace=%s", rc, live, tr_buf);
 }
 
+int main(void);
 int main(void) {
     char *line = NULL; size_t cap = 0; ssize_t n;
     long maxk = 0, stride = 0, startk = 1; int scen = 0;
@@ -189,6 +206,16 @@ int main(void) {
         for (char *x = strtok_r(line, " ", &save); x && nt < 8; x = strtok_r(NULL, " ", &save)) t[nt++] = x;
         if ((nt == 3 || nt == 4) && !strcmp(t[0], "E")) { maxk = atol(t[1]); stride = atol(t[2]); startk = nt == 4 ? atol(t[3]) : 1; if (startk < 1) startk = 1; printf("ok\n"); fflush(stdout); continue; }
         if (nt == 3 && !strcmp(t[0], "O")) { own(t[1], atol(t[2])); printf("\n"); fflush(stdout); continue; }
+        if (nt == 4 && !strcmp(t[0], "T")) {
+            /* fault-free run; prints the allocation count and the distinct allocation call sites reached (offsets from main) */
+            g_sitemode = 1; g_nsites = 0; g_countdown = 0; g_count = 0;
+            run_once(t[1], t[2], t[3]);
+            g_sitemode = 0;
+            printf("n=%lu sites=", g_count);
+            for (int i = 0; i < g_nsites; i++) printf("%s%lx", i ? "," : "", (unsigned long) (uintptr_t) g_sites[i]);
+            printf("\n"); fflush(stdout);
+            continue;
+        }
         if (nt == 4 && !strcmp(t[0], "S")) {
             scen++;
             fprintf(stderr, "RUN %d 0\n", scen); fflush(stderr);
@@ -207,9 +234,11 @@ int main(void) {
                 int b = run_once(t[1], t[2], t[3]);
                 g_countdown = 0;
                 fired += g_failed; runs++;
-                int leak = __lsan_do_recoverable_leak_check();
-                if ((b || leak) && bl + 32 < sizeof bad) bl += snprintf(bad + bl, sizeof bad - bl, "%lu:%s ", k, leak ? "leak" : (b == 3 ? "error-not-sticky" : "contract"));
+                if (b && bl + 32 < sizeof bad) bl += snprintf(bad + bl, sizeof bad - bl, "%lu:%s ", k, b == 3 ? "error-not-sticky" : "contract");
             }
+            /* memory not released after a failed allocation is only an observation (outside C18 as stated): one leak check per scenario,
+             * not per run - the stop-the-world check dominated the sweep's cost */
+            if (__lsan_do_recoverable_leak_check() && bl + 32 < sizeof bad) bl += snprintf(bad + bl, sizeof bad - bl, "any:leak ");
             startk = 1;
             printf(" runs=%lu fired=%lu bad=[%s]\n", runs, fired, bad); fflush(stdout);
             continue;
